@@ -74,6 +74,10 @@ fn main() {
         // hidden mode of the C09 check: see c09.rs
         return c09::child_main(&args[2..]);
     }
+    if args.len() == 5 && args[1] == "--c09m-child" {
+        // hidden mode of the C09 check: see c09.rs `c09m`
+        std::process::exit(c09::macro_child(&args[2..]));
+    }
     if args.len() == 6 && args[1] == "--c08-lock" {
         // hidden mode of the C08 check: see c06.rs
         std::process::exit(c06::lock_child(&args[2..]));
